@@ -126,8 +126,11 @@ def l124a():
 
 
 def l124b(with_callback):
-    now = symreal('now', lo=1, hi=TMAX)
-    clock = proto.clock_at(now)
+    """connect() at an arbitrary instant, nothing ever arrives, the application keeps ticking: two ticks at arbitrary
+    later instants.  Until the configured timeout has elapsed the attempt is CONNECTING (whatever the 5 s rule for
+    established links says), afterwards DISCONNECTED - and it stays that way - with the callback fired once with False"""
+    t_c = symreal('connect_at', lo=1, hi=TMAX)
+    clock = proto.clock_at(t_c)
     cb = Rec('connect') if with_callback else None
     u = client_mod.UdpClient()
     timeout = symreal('connect_timeout', lo=0.01, hi=1000)
@@ -139,24 +142,37 @@ def l124b(with_callback):
         u.setConnectionTimeout(timeout)
     c = u.conn
     c.clock = clock
-    sent_at = symreal('hello_sent', lo=0.5, hi=now)
-    c.time_client_hello_sent = sent_at
     check(c.status == Status.CONNECTING, 'connect() starts CONNECTING')
-    c.update()
-    expired = (now - sent_at) > timeout
-    check(Iff(expired, c.status == Status.DISCONNECTED), 'an unanswered connect attempt ends DISCONNECTED after the configured timeout')
-    if with_callback:
-        check(Iff(expired, cb.calls == [False]), 'the connect callback is called once with False on timeout')
-    # a later tick does not repeat it
-    c.update()
-    if with_callback:
-        check(len(cb.calls) <= 1, 'the connect callback is not called again')
+    check(c.time_client_hello_sent == t_c, 'the connect attempt is timed from the moment of connect()')
+    elapsed = 0
+    was_expired = False
+    for k in (1, 2):
+        dt = symreal('dt%d' % k, lo=0, hi=100000)
+        clock.advance(dt)
+        elapsed = elapsed + dt
+        try:
+            u.update()
+        except Exception as ex:
+            core.fail('UdpClient.update raised during an unanswered connect attempt', error=type(ex).__name__)
+        expired = bool(Or(was_expired, elapsed > timeout))
+        if expired:
+            check(c.status == Status.DISCONNECTED, 'an unanswered connect attempt ends DISCONNECTED after the configured timeout', tick=k)
+            if with_callback:
+                check(cb.calls == [False], 'the connect callback is called once with False on timeout', tick=k)
+        else:
+            check(c.status == Status.CONNECTING, 'until the configured timeout has elapsed the attempt stays CONNECTING', tick=k)
+            if with_callback:
+                check(cb.calls == [], 'no callback before the timeout', tick=k)
+        was_expired = expired
 
 
 R.add('L12.4a', l124a, [{}], desc='client DROPPED threshold', expect=['client reports DROPPED exactly when the server has been silent for more than 5 s'])
 R.add('L12.4b', l124b, [dict(with_callback=True), dict(with_callback=False)],
-      desc='unanswered connect: DISCONNECTED after the configured timeout, callback (if any) once with False',
-      expect=['an unanswered connect attempt ends DISCONNECTED after the configured timeout'])
+      desc='unanswered connect followed by two ticks at arbitrary later instants: CONNECTING until the configured timeout, then '
+           'DISCONNECTED for good, callback (if any) once with False',
+      expect=['an unanswered connect attempt ends DISCONNECTED after the configured timeout',
+              'until the configured timeout has elapsed the attempt stays CONNECTING'],
+      bounds='connect instant, timeout (0.01..1000 s) and both tick instants symbolic reals; two ticks')
 
 
 # ------------------------------------------------------------------ L12.5 setters
@@ -281,6 +297,54 @@ def l127():
 R.add('L12.7', l127, [{}], desc='real server loop: configured connection timeout / keep-alive / message timeout are the ones used',
       expect=['a silent client is dropped exactly when its silence has reached the configured connection timeout',
               'new connections use the configured keep-alive interval and message timeout'])
+
+
+# ------------------------------------------------------------------ L12.8 idle link after a real handshake
+def l128(n):
+    """both endpoints come out of the real handshake (no field is set by hand), then the link idles: n ticks at
+    arbitrary spacing up to one second, the network delivers whatever is emitted.  Nobody times out, nobody is
+    DROPPED / DISCONNECTED, the connect callback stays at its single True, and each side emits whenever more than its
+    keep-alive interval has passed since its last datagram."""
+    clock = proto.clock_at(symreal('t0', lo=10, hi=TMAX))
+    cl, sv, ctxt, handler, cb = proto.honest_handshake(clock)
+    check(And(cl.status == Status.CONNECTED, sv.status == Status.CONNECTED), 'both sides connected after the handshake')
+    check(cb.calls == [True], 'connect callback: once, True')
+    for k in range(n):
+        dt = symreal('dt%d' % k, lo=0.02, hi=1)
+        clock.advance(dt)
+        now = clock.now
+        # client tick (what UdpClient.update does around the connection object)
+        cl.update()
+        due_c = (now - cl.last_send_time) > cl.send_keep_alive_interval
+        pkt = cl._build_packet() if bool((now - cl.last_send_time) > cl.send_interval) else None
+        if bool(due_c):
+            check(pkt is not None, 'the client emits once its keep-alive interval has passed', tick=k)
+        if pkt is not None:
+            raw = cl._encode_packet(pkt)
+            sv._recv_datagram(PacketHeader.from_bytes(True, raw), raw)
+        cl._check_timeout(now)
+        # server tick
+        due_s = (now - sv.last_send_time) > sv.send_keep_alive_interval
+        out = sv.update()
+        if bool(due_s):
+            check(out is not None, 'the server side emits once its keep-alive interval has passed', tick=k)
+        if out is not None:
+            spkt, key, addr = out
+            raw = spkt.to_bytes(key)
+            cl._recv_datagram(PacketHeader.from_bytes(False, raw), raw)
+        check(cl.status == Status.CONNECTED, 'the idle client stays CONNECTED', tick=k)
+        check(sv.status == Status.CONNECTED, 'the idle server-side connection stays CONNECTED', tick=k)
+        check(Not(sv.timedout(ctxt.connection_timeout)), 'the server does not time the idle client out', tick=k)
+        check(cb.calls == [True], 'the connect callback is never called again', tick=k)
+        check([e[0] for e in handler.events] == ['connect'], 'no further handler events on an idle link', tick=k)
+
+
+R.add('L12.8', l128, lambda tier: [dict(n=(3 if tier == 'quick' else 6))],
+      desc='idle link after the real handshake: n ticks up to 1 s apart, everything delivered: both sides stay CONNECTED, emit per '
+           'keep-alive interval, callback stays [True]',
+      expect=['the idle client stays CONNECTED', 'the client emits once its keep-alive interval has passed',
+              'the server side emits once its keep-alive interval has passed'],
+      bounds='3 (thorough 6) ticks, each 0.02..1 s after the previous one; default keep-alive / timeout settings')
 
 import sys as _sys  # noqa: E402
 from sx.models import stubs_m  # noqa: E402
